@@ -194,6 +194,34 @@ func builderHarness(pkg string, chain bool, n int, onePos int, singleFail bool, 
 	return sb.String()
 }
 
+// builderNilable: every operand is a *int handed over with plain Ap; nil is an ordinary value of that type and
+// must reach fn unchanged at its position
+func builderNilable(pkg string, chain bool, n int, label string) string {
+	var sb strings.Builder
+	w := func(f string, a ...any) { sb.WriteString(fmt.Sprintf(f, a...)) }
+	fam := "Applicative"
+	if chain {
+		fam = "Chain"
+	}
+	for i := 1; i <= n; i++ {
+		w("\ta%d := zz.Int(\"a%d\")\n\tvar p%d *int\n\tif zz.Bool(\"nonnil%d\") {\n\t\tp%d = &a%d\n\t}\n", i, i, i, i, i, i)
+	}
+	ptrs := seqN(n, func(i int) string { return fmt.Sprintf("x%d", i) }, ", ")
+	w("\tf := func(%s *int) int { return zz.UFInt(\"f\", %s) }\n", ptrs, seqN(n, func(i int) string { return fmt.Sprintf("enc(x%d)", i) }, ", "))
+	chainExpr := fmt.Sprintf("%s.%s%d(as.Func%d(f))", pkg, fam, n, n)
+	for i := 1; i <= n; i++ {
+		chainExpr += fmt.Sprintf(".Ap(p%d)", i)
+	}
+	w("\tr := %s\n", chainExpr)
+	want := fmt.Sprintf("zz.UFInt(\"f\", %s)", seqN(n, func(i int) string { return fmt.Sprintf("enc(p%d)", i) }, ", "))
+	if pkg == "try" {
+		w("\tzz.Assert(r.IsSuccess() && r.Get() == %s, %q)\n", want, label+": plain values (nil pointers included) reach fn at their positions")
+	} else {
+		w("\tzz.Assert(r.IsDefined() && r.Get() == %s, %q)\n", want, label+": plain values (nil pointers included) reach fn at their positions")
+	}
+	return sb.String()
+}
+
 func tabName(pkg string, chain bool) string {
 	s := "A"
 	if chain {
@@ -258,6 +286,13 @@ func itoa(i int) string {
 		return string(rune('0'+i/10)) + string(rune('0'+i%10))
 	}
 	return string(rune('0' + i))
+}
+
+func enc(p *int) int {
+	if p == nil {
+		return -1
+	}
+	return zz.UFInt("deref", *p)
 }
 
 func sameInts(a, b []int) bool {
@@ -327,6 +362,9 @@ func genBuilders(id, pkgName string, maxAll, maxOne int) genFn {
 					label := fmt.Sprintf("%s.%s%d", pkg, fam, n)
 					if n <= mOne {
 						markCovered(strings.ToUpper(id), label)
+					}
+					if n <= 9 {
+						sb.WriteString(fmt.Sprintf("\nfunc VH_%s_%s_%s%d_nilable() {\n%s}\n", id, pkg, fam, n, builderNilable(pkg, chain, n, label)))
 					}
 					switch {
 					case n >= 2 && n <= mAll:
